@@ -40,6 +40,38 @@ class _Pickled:
         self.data = data
 
 
+def _fork_snapshot_callable(target, memo):
+    """fork gives the child a snapshot of everything the target can reach, not only of its arguments:
+    closure cells, default arguments, the bound object of a method and the parts of a functools.partial
+    are copied as well (module globals stay shared: see the shared-state detection)"""
+    import functools
+
+    if target is None:
+        return None
+    if isinstance(target, functools.partial):
+        return functools.partial(_fork_snapshot_callable(target.func, memo), *copy.deepcopy(target.args, memo), **copy.deepcopy(target.keywords, memo))
+    if isinstance(target, types.MethodType):
+        return types.MethodType(target.__func__, copy.deepcopy(target.__self__, memo))
+    if isinstance(target, types.FunctionType) and (target.__closure__ or target.__defaults__ or target.__kwdefaults__):
+        cells = None
+        if target.__closure__:
+            cells = tuple(types.CellType(copy.deepcopy(c.cell_contents, memo)) if _cell_has_value(c) else types.CellType() for c in target.__closure__)
+        f = types.FunctionType(target.__code__, target.__globals__, target.__name__, copy.deepcopy(target.__defaults__, memo), cells)
+        f.__kwdefaults__ = copy.deepcopy(target.__kwdefaults__, memo)
+        f.__dict__.update(target.__dict__)
+        f.__qualname__ = target.__qualname__
+        return f
+    return target
+
+
+def _cell_has_value(c):
+    try:
+        c.cell_contents
+        return True
+    except ValueError:
+        return False
+
+
 class Frame:
     __slots__ = ("data", "total", "written", "consumed", "owner", "ordinal", "chunks")
 
@@ -938,7 +970,9 @@ class SimWorld:
         self.procs.append(proc)
         # fork: the child gets a snapshot of everything reachable from the arguments
         try:
-            snap_args, snap_kwargs = copy.deepcopy((proc._args, proc._kwargs))
+            memo = {}
+            snap_args, snap_kwargs = copy.deepcopy((proc._args, proc._kwargs), memo)
+            proc._child_target = _fork_snapshot_callable(proc._target, memo)
         except SimUnsupported:
             raise
         except Exception as e:
@@ -970,7 +1004,7 @@ class SimWorld:
                     proc.body()
                 elif type(proc).run is SimProcess.run:
                     if proc._target:
-                        proc._target(*proc._child_args, **proc._child_kwargs)
+                        getattr(proc, "_child_target", proc._target)(*proc._child_args, **proc._child_kwargs)
                 else:
                     proc.run()
                 proc.target_done = True
